@@ -10,7 +10,9 @@
 EXTENDS Integers, Sequences, FiniteSets, TLC
 Fields == {"sig", "rev", "hsize", "hcrc", "reserved", "mylba", "altlba", "first", "last",
            "arrlba", "count", "esize", "arrcrc"}
-Vals   == {"zero", "one", "max", "maxm1", "sign", "ovf", "dev"}
+Vals   == {"zero", "one", "max", "maxm1", "sign", "ovf", "dev", "wrap"}
+\* "wrap": a value chosen together with the other size fields so that LBA * sector + count * entry
+\* size wraps around 2^64 to a small number (an overflow-unsafe bounds check lets it through)
 SizeFields == {"arrlba", "count", "esize"}
 Single == [kind : {"gpt1"}, copy : {"primary", "backup", "both"}, field : Fields, val : Vals, fix : {"no", "yes"}]
 FieldPairs == {<<"arrlba", "count">>, <<"arrlba", "esize">>, <<"count", "esize">>}
